@@ -30,6 +30,8 @@ pub struct CongestionController {
     // The number of times a PTO has been sent without receiving an acknowledgment.
     // Use to pto backoff
     pto_count: u32,
+    // the Initial space is abandoned once, on the first Handshake packet sent / acknowledged
+    initial_discarded: bool,
     max_ack_delay: Duration,
     packet_spaces: [PacketSpace; Epoch::count()],
     // pacer is used to control the burst rate
@@ -63,6 +65,7 @@ impl CongestionController {
             rtt: ArcRtt::new(),
             loss_detection_timer: None,
             pto_count: 0,
+            initial_discarded: false,
             max_ack_delay,
             packet_spaces: [
                 PacketSpace::with_epoch(Epoch::Initial, Duration::ZERO),
@@ -657,7 +660,8 @@ impl super::Transport for ArcCC {
                 .on_ack_sent(pn, largest_acked);
         }
         // See [Section 17.2.2.1](https://www.rfc-editor.org/rfc/rfc9000#name-abandoning-initial-packets)
-        if epoch == Epoch::Handshake && !guard.path_status.is_server() {
+        if epoch == Epoch::Handshake && !guard.path_status.is_server() && !guard.initial_discarded {
+            guard.initial_discarded = true;
             guard.discard_epoch(Epoch::Initial);
         }
     }
@@ -668,7 +672,8 @@ impl super::Transport for ArcCC {
         guard.on_ack_rcvd(epoch, ack_frame, now);
 
         // See [Section 17.2.2.1](https://www.rfc-editor.org/rfc/rfc9000#name-abandoning-initial-packets)
-        if epoch == Epoch::Handshake && guard.path_status.is_server() {
+        if epoch == Epoch::Handshake && guard.path_status.is_server() && !guard.initial_discarded {
+            guard.initial_discarded = true;
             guard.discard_epoch(Epoch::Initial);
         }
     }
